@@ -531,7 +531,7 @@ func c07ProjectSpec(c *Ctx, fn *ssa.Function) DTXSpec {
 			MaxLen: func(key string, _ types.Type) int { return 2 },
 			IntDomain: func(key string) []int64 {
 				if key == "len(ao.Card)" {
-					return []int64{0, 3}
+					return []int64{0, 2, 3}
 				}
 				return nil
 			},
@@ -574,9 +574,17 @@ func c07ProjectSpec(c *Ctx, fn *ssa.Function) DTXSpec {
 				if env.Eq(S(fmt.Sprintf("req.Props[%d]", i)), K("VERSION")) {
 					return nil, false
 				}
+			}
+			// a name may be requested twice: it is still one property (the
+			// presence of one name is one fact, whichever occurrence asks)
+			dup := map[int]bool{}
+			for i := 0; i < n; i++ {
 				for j := 0; j < i; j++ {
 					if env.Eq(S(fmt.Sprintf("req.Props[%d]", i)), S(fmt.Sprintf("req.Props[%d]", j))) {
-						return nil, false
+						dup[i] = true
+						if env.Bool(fmt.Sprintf("has(ao.Card[req.Props[%d]])", i)) != env.Bool(fmt.Sprintf("has(ao.Card[req.Props[%d]])", j)) {
+							return nil, false
+						}
 					}
 				}
 			}
@@ -584,13 +592,35 @@ func c07ProjectSpec(c *Ctx, fn *ssa.Function) DTXSpec {
 			if !env.Bool("has(ao.Card[\"VERSION\"])") {
 				ks = []string{"\"VERSION\"<-[]"}
 			}
+			alts := [][]string{ks}
 			for i := 0; i < n; i++ {
 				name := fmt.Sprintf("req.Props[%d]", i)
+				if dup[i] {
+					continue
+				}
 				if env.Bool("has(ao.Card[" + name + "])") {
-					ks = append(ks, name+"<-ao.Card["+name+"]")
+					// the value may have been looked up through any
+					// occurrence of the (same) name
+					srcs := []string{name}
+					for j := i + 1; j < n; j++ {
+						if dup[j] && env.Eq(S(name), S(fmt.Sprintf("req.Props[%d]", j))) {
+							srcs = append(srcs, fmt.Sprintf("req.Props[%d]", j))
+						}
+					}
+					var next [][]string
+					for _, a := range alts {
+						for _, src := range srcs {
+							next = append(next, append(append([]string{}, a...), name+"<-ao.Card["+src+"]"))
+						}
+					}
+					alts = next
 				}
 			}
-			return []string{"fresh{" + strings.Join(ks, " ") + "} path=ao.Path etag=ao.ETag"}, true
+			var out []string
+			for _, a := range alts {
+				out = append(out, "fresh{"+strings.Join(a, " ")+"} path=ao.Path etag=ao.ETag")
+			}
+			return out, true
 		},
 	}
 }
